@@ -1782,6 +1782,16 @@ def _ref_arith(I, f, a):
     return I.binop(op, x, y, ty)
 
 
+@model("core::bool::<impl bool>::then_some")
+def _bool_then_some(I, f, a):
+    return some(a[1]) if I.truth(a[0]) else none()
+
+
+@model("core::bool::<impl bool>::then")
+def _bool_then(I, f, a):
+    return some(I.call_closure(a[1], [])) if I.truth(a[0]) else none()
+
+
 @model("std::hint::must_use", "std::convert::identity", "<T as std::convert::From<T>>::from",
        "<T as std::convert::Into<U>>::into")
 def _identity(I, f, a):
